@@ -169,10 +169,13 @@ def trace_leg(leg, prop, tier, seed, workdir, findings, report):
         raise ToolError("workload %s produced %d of %d scenarios" % (name, len(scen), n))
     text = "".join("".join(s) for s in scen)
     # non-vacuity: the traces must exercise what the property quantifies over
+    vacuous = None
     for pat, minimum in leg.get("require", {}).items():
         c = len(re.findall(pat, text))
-        if c < (minimum if tier == "quick" else minimum):
-            raise ToolError("vacuous traces for %s/%s: pattern %r seen %d times (< %d)" % (prop, name, pat, c, minimum))
+        if c < minimum and vacuous is None:
+            # decided after validation: code that breaks the property may also starve a pattern (e.g. no "Closed" is ever
+            # reported); a violation found in the same traces takes precedence over the vacuity verdict
+            vacuous = "vacuous traces for %s/%s: pattern %r seen %d times (< %d)" % (prop, name, pat, c, minimum)
     marks = leg.get("nontrivial", [])
     distinct = set()
     for s in scen:
@@ -223,6 +226,8 @@ def trace_leg(leg, prop, tier, seed, workdir, findings, report):
         v.update({"leg": name, "seed": sseed, "replay": rpath, "line_in_scenario": v["line"] - acc})
         viols_out.append(v)
         remaining = remaining[idx + 1:]
+    if vacuous and not viols_out:
+        raise ToolError(vacuous)
     report["legs"].append({"kind": "trace", "name": name, "workload": leg["workload"], "opts": opts, "scenarios": len(scen),
                            "events": events, "validated": validated, "distinct_nontrivial": len(distinct),
                            "monitor_states": states_total, "drive_s": round(dt_drive, 2), "validate_s": round(t_val, 1),
